@@ -10,8 +10,9 @@ package checks
 // whose locals are named like the module-scope entity in their own initialiser (`let g = g * 2;`) are
 // exactly the ones on which a name-resolution defect turns into unbounded recursion, so each F8 family
 // is first screened in child processes (this binary re-executed with the argument `f8screen`, handled in
-// init below because the dispatcher in cmd/vcheck is a shared file): every program is parsed, lowered,
-// validated and compiled by each backend under default options. A program on which the child dies or
+// init below because the dispatcher in cmd/vcheck is a shared file): every program is parsed, lowered and
+// validated there (the stages that resolve names; the backends work on resolved handles and are no more
+// exposed to F8 than to any other family). A program on which the child dies or
 // stops making progress is replaced, in this process, by an empty placeholder and announced on stdout
 // (a crash on a valid input is the business of C10, as with recovered panics); all other programs are
 // checked in-process as usual, so a clean rejection of any of them is still reported as a violation.
@@ -63,7 +64,7 @@ func init() {
 
 // f8ScreenChild: args = family, shard, shards, start. Announces each index before touching it.
 func f8ScreenChild(args []string) {
-	debug.SetMaxStack(64 << 20) // the programs are tiny: deeper recursion than this is unbounded, and the default 1 GB takes long to fill
+	debug.SetMaxStack(16 << 20) // the programs are tiny: deeper recursion than this is unbounded, and the default 1 GB takes long to fill
 	f := f8Raw[args[0]]()
 	shard, _ := strconv.Atoi(args[1])
 	shards, _ := strconv.Atoi(args[2])
@@ -79,15 +80,6 @@ func f8ScreenChild(args []string) {
 			continue
 		}
 		nagax.Validate(m)
-		nagax.CompileDefault(src)
-		nagax.SPIRV(m, nagax.SPIRVConfigs(0)[0].Opts)
-		nagax.HLSL(m, nagax.HLSLConfigs(0)[0].Opts)
-		nagax.MSL(m, nagax.MSLConfigs(0)[0].Opts)
-		for _, ep := range entryNames(m) {
-			o := nagax.GLSLConfigs(0)[0].Opts
-			o.EntryPoint = ep
-			nagax.GLSL(m, o)
-		}
 	}
 	fmt.Fprintln(os.Stdout, "done")
 }
